@@ -1,0 +1,9 @@
+//go:build verif
+
+package goverter
+
+// Contracts for the root package (comment-only; checked by /verif/engine).
+
+//@ func writeFiles
+//@   props C09 C15 C17
+//@   maprange 1 unordered-result paths
